@@ -423,7 +423,7 @@ func (fc *FnCtx) callWritesDepth(c ssa.CallInstruction, depth int) *WriteSet {
 	callee := fc.resolveCallee(c)
 	keys := fc.calleeKeys(c, callee)
 	if callee != nil {
-		if ct := fc.eng.ContractFor(callee); ct != nil {
+		if ct := fc.eng.ContractForIn(callee, fnPkgPath(c.Parent())); ct != nil {
 			if ct.HasMod {
 				fc.modifiesToWS(ct, ws)
 				if len(callee.Blocks) > 0 && !ct.Flags["trusted"] {
@@ -446,7 +446,7 @@ func (fc *FnCtx) callWritesDepth(c ssa.CallInstruction, depth int) *WriteSet {
 		}
 	}
 	for _, k := range keys {
-		if ct := fc.eng.Contracts[k]; ct != nil && ct.Assumed {
+		if ct := fc.eng.Assumed(fnPkgPath(c.Parent()), k); ct != nil {
 			if ct.HasMod {
 				fc.modifiesToWS(ct, ws)
 				return ws
